@@ -84,7 +84,8 @@ def run(chk: Check):
                     chk.count("minkowski:p=" + ("inf" if p == float("inf") else "integer<=4" if p in (1, 2, 3, 4) else "other"))
                     ftags = [rng.randrange(3) for _ in range(d)] if rng.random() < 0.5 else None
                     fl = None if ftags is None else [filters_pool[t] for t in ftags]
-                    got = float(MinkowskiLoss(p=p, coordinate_weights=wnp, coordinate_filters=fl).compute_loss(sim, real))
+                    mk = lambda: MinkowskiLoss(p=p, coordinate_weights=wnp, coordinate_filters=fl)  # noqa: E731
+                    got = float(mk().compute_loss(sim, real))
                     want = ref.minkowski(sim, real, p, weights, fl)
                     opts = {"p": p, "filters": ftags}; tol = 1e-9
                     if n <= 60 and p in (1, 2, 3, 4):
@@ -99,10 +100,12 @@ def run(chk: Check):
                     std = rng.random() < 0.3
                     if cov == "matrix":
                         a = np.random.default_rng(ci).standard_normal((18, 18)); cm = (a + a.T) / 2
-                        got = float(MethodOfMomentsLoss(covariance_mat=cm, coordinate_weights=wnp, standardise_moments=std).compute_loss(sim, real))
+                        mk = lambda: MethodOfMomentsLoss(covariance_mat=cm, coordinate_weights=wnp, standardise_moments=std)  # noqa: E731
+                        got = float(mk().compute_loss(sim, real))
                         want = ref.msm(sim, real, cm.tolist(), std, weights)
                     else:
-                        got = float(MethodOfMomentsLoss(covariance_mat=cov, coordinate_weights=wnp, standardise_moments=std).compute_loss(sim, real))
+                        mk = lambda: MethodOfMomentsLoss(covariance_mat=cov, coordinate_weights=wnp, standardise_moments=std)  # noqa: E731
+                        got = float(mk().compute_loss(sim, real))
                         want = ref.msm(sim, real, cov, std, weights)
                         if n <= 60:
                             model_lean.append(("MethodOfMomentsLoss.compute_loss != BlackIt.Loss.msmIdentity/msmInverseVariance over the 18-moment summary (binary64 instance)", got,
@@ -126,8 +129,8 @@ def run(chk: Check):
                         f, kind = 0.5, ["ideal", "gaussian"][ci - 3]
                     if kind == "gaussian" and round(f * (n // 2 + 1)) < 1:
                         f = 0.5          # a Gaussian mask of width round(f*n_freq) = 0 is degenerate (0/0); outside 'admissible options'
-                    got = float(FourierLoss(frequency_filter=gaussian_low_pass_filter if kind == "gaussian" else ideal_low_pass_filter, f=f,
-                                            coordinate_weights=wnp).compute_loss(sim, real))
+                    mk = lambda: FourierLoss(frequency_filter=gaussian_low_pass_filter if kind == "gaussian" else ideal_low_pass_filter, f=f, coordinate_weights=wnp)  # noqa: E731
+                    got = float(mk().compute_loss(sim, real))
                     want = ref.fourier(sim, real, f, kind, weights)
                     opts = {"f": f, "kind": kind}; tol = 1e-9
                     # the same value from the Lean model (BlackIt.Loss.fourierLoss, binary64 instance with a naive DFT), per coordinate
@@ -156,7 +159,8 @@ def run(chk: Check):
                         real = np.stack([structured() for _ in range(d)], axis=1)
                         shape = "burnin_then_periodic"
                         chk.count("data:burnin_then_periodic")
-                    got = float(GslDivLoss(nb_values=nv, nb_word_lengths=L, coordinate_weights=wnp).compute_loss(sim, real))
+                    mk = lambda: GslDivLoss(nb_values=nv, nb_word_lengths=L, coordinate_weights=wnp)  # noqa: E731
+                    got = float(mk().compute_loss(sim, real))
                     want = ref.gsl(sim, real, nv, L, weights)
                     opts = {"nb_values": nv, "nb_word_lengths": L}; tol = 1e-6
                     eff_nv = int((n - 1) / 2.0) if nv is None else nv
@@ -182,7 +186,8 @@ def run(chk: Check):
                     h = rng.choice(["silverman", "scott", 0.5, 1.3])
                     ns = min(n, 24)
                     sim, real = sim[:, :ns, :], real[:ns]
-                    got = float(LikelihoodLoss(h=h).compute_loss(sim, real))
+                    mk = lambda: LikelihoodLoss(h=h)  # noqa: E731
+                    got = float(mk().compute_loss(sim, real))
                     want = ref.likelihood(sim, real, h)
                     opts = {"h": h}; tol = 1e-6
                     rule = {"silverman": 1, "scott": 2}.get(h, 0)
@@ -193,6 +198,23 @@ def run(chk: Check):
                 chk.fail(f"{which} raised {type(ex).__name__}: {str(ex)[:100]} on admissible input", case)
                 continue
         case["case"]["options"] = {k: (v if not callable(v) else "fn") for k, v in opts.items()}
+        # the same loss OBJECT used several times, as a calibration does (one object, thousands of evaluations against the same real data): after evaluations on
+        # other simulated data (same real data, then other real data) the value on (sim, real) is, bit for bit, the one a fresh object gives
+        with warnings.catch_warnings(), np.errstate(all="ignore"):
+            warnings.simplefilter("ignore")
+            try:
+                used = mk()
+                sim_b = gen_data(rng, sim.shape[0], sim.shape[1], sim.shape[2])[0]
+                real_b = gen_data(rng, 1, real.shape[0], real.shape[1])[1]
+                used.compute_loss(sim_b, real); used.compute_loss(sim, real); used.compute_loss(sim_b, real_b)
+                got_used = float(used.compute_loss(sim, real))
+            except Exception as ex:  # noqa: BLE001
+                chk.fail(f"{which} raised {type(ex).__name__}: {str(ex)[:100]} on admissible input when one loss object is evaluated several times", case)
+                continue
+        chk.count("used_object_re-evaluated")
+        if f2h(got_used) != f2h(got):
+            chk.fail(f"{which} {case['case']['options']}: a loss object that has been evaluated before (on other simulated data, on the same data, on other real data) returns {got_used!r} "
+                     f"where a fresh object returns {got!r} (documented definition {want!r})", case)
         chk.case([which, str(opts), e, n, d, shape, ci], d >= 2 or e >= 2, {"loss": which, "options": case["case"]["options"], "E": e, "N": n, "D": d, "value": got, "reference": want})
         chk.count("numeric_tolerance_cases")
         if not close(got, want, tol, 1e-9):
